@@ -23,7 +23,9 @@ ORDER = {"none": ("", []), "one": ("{a0} DESC", ["{a0}:DESC"]), "two": ("{a0} AS
 JOIN = {"none": ("", []), "inner": ("JOIN meta m ON k = m.k", ["meta|m|INNER|k=k"]), "left": ("LEFT JOIN meta m ON k = m.k AND t = m.tenant", ["meta|m|LEFT|k=k&t=tenant"]),
         # the stream under an alias, ON keys qualified by the aliases with nested paths behind them (the alias is cut off, the path stays)
         "aliasnested": ("s JOIN meta m ON s.device.id = m.profile.id AND dev.k2 = m.k2", ["meta|m|INNER|device.id=profile.id&dev.k2=k2"]),
-        "aliasflat": ("s LEFT JOIN meta AS m ON s.k = m.k", ["meta|m|LEFT|k=k"])}
+        "aliasflat": ("s LEFT JOIN meta AS m ON s.k = m.k", ["meta|m|LEFT|k=k"]),
+        # no table alias: the table's own name qualifies its columns
+        "noalias": ("JOIN meta ON k = meta.k AND t = meta.tenant", ["meta|meta|INNER|k=k&t=tenant"])}
 # MATCH_RECOGNIZE sub-clauses (spec/sem/MrGrammar.tla): text and the part of MatchRecognizeSpec it must produce
 MR_PART = {"none": ("", []), "one": ("PARTITION BY g ", ["g"]), "two": ("PARTITION BY g, `site id` ", ["g", "site id"])}
 MR_ROWS = {"default": ("", 0), "one": ("ONE ROW PER MATCH ", 0), "all": ("ALL ROWS PER MATCH ", 1)}
@@ -163,6 +165,15 @@ def run(tier):
             batch.append(b.decode("utf8", "replace"))
         if len(batch) >= 400:
             scen.append({"meta": {"mode": "total", "exp": {}}, "texts": batch}); batch = []
+    # statements that are WRONG in one place (an unknown function with many arguments, long operator chains without blanks, unknown
+    # keywords): the answer is an error, never a panic - the error-reporting path formats an excerpt of the statement
+    for k in range(1, 14):
+        args = ["a%d" % i for i in range(k)]
+        for sep in (",", ", ", " , "):
+            batch.append("SELECT nosuchfn(%s) FROM stream" % sep.join(args))
+            batch.append("SELECT id, nosuchfn(%s) AS r FROM stream WHERE nosuch2(%s) > 1" % (sep.join(args), sep.join(args[:3])))
+        batch.append("SELECT %s FROM stream" % "+".join(args))
+        batch.append("SELECT nosuchfn(%s) FROM stream GROUP BY nosuch3(%s), TumblingWindow('1s')" % ("+".join(args), ",".join(args)))
     for _ in range(2000 if quick else 150000):
         batch.append(" ".join(rng.choice(TOKENS) for _ in range(rng.choice([5, 9, 20, 40]))))
         if len(batch) == 400:
